@@ -679,12 +679,12 @@ class Evaluator:
             for st2, raw in self.expr(e.args[0], st, fn, depth):
                 order, signed = "big", False
                 if len(e.args) > 1:
-                    order = self._constkw(e.args[1], fn, order)
+                    order = self._constkw(e.args[1], fn, order, st2)
                 for k in e.keywords:
                     if k.arg == "byteorder":
-                        order = self._constkw(k.value, fn, None)
+                        order = self._constkw(k.value, fn, None, st2)
                     elif k.arg == "signed":
-                        signed = self._constkw(k.value, fn, None)
+                        signed = self._constkw(k.value, fn, None, st2)
                 if raw[0] == "rawbytes":
                     leaf = ("read", raw[1], raw[2], raw[3], bool(signed), "int" if order == "big" else "int-" + str(order))
                     st3 = st2.copy()
@@ -767,7 +767,10 @@ class Evaluator:
                 continue
             yield cur, obj("call", name, tuple(keys))
 
-    def _constkw(self, e, fn, default):
+    def _constkw(self, e, fn, default, st=None):
+        if st is not None and isinstance(e, ast.Name) and e.id in st.env:
+            v = st.env[e.id]          # a parameter bound to a constant (helper called with signed=True, 'big', ...)
+            return _plain(v[1]) if v[0] == "const" else default
         try:
             return self.prog.consteval(e, fn.module)
         except NotConst:
